@@ -186,6 +186,51 @@ def make_F(m, coef):
     return F
 
 
+NPKINDS = ["exp_scalar", "exp_array", "square_array", "sqrt_log", "inf_minus_inf", "np_costs", "round_huge"]
+
+
+def make_npF(kind, m):
+    """Objectives written with numpy whose arithmetic OVERFLOWS or is INVALID for some designs of the box and is finite for the
+    others (red team round 3: numpy's floating-point error state is thread-local, so anything in artap that changes it - or depends
+    on it - acts on the dispatching thread only).  The objective's outcome is a function of the vector: whatever IEEE arithmetic
+    gives (inf / nan / a huge finite number are VALUES), in every thread.  The reference values for the model and the oracle are
+    computed by this same function in a plain call outside artap (main thread of the harness)."""
+    import numpy as np
+
+    def F(v):
+        v = [float(x) for x in v]
+        a = np.array(v, dtype=float)
+        x0, xl = np.float64(v[0]), np.float64(v[-1])
+        out = []
+        for j in range(m):
+            if kind == "exp_scalar":            # numpy-scalar arithmetic: exp overflows for x0 >= 1.78 (x0 = 1.5: 1e260, finite)
+                c = np.exp(np.float64(400.0 + 50.0 * j) * x0) + np.float64(sum(v))
+            elif kind == "exp_array":           # ndarray arithmetic
+                c = np.sum(np.exp((300.0 + 100.0 * j) * a)) - j
+            elif kind == "square_array":        # (1e160 x)^2: inf unless |x| < 1e-6 or so; 1e-9 -> 1e302 (huge), 0 -> 0
+                b = a * 1e160
+                c = np.sum(b * b) * 1e-300 + j
+            elif kind == "sqrt_log":            # invalid: sqrt of a negative number, log of a negative number (nan); log(0) = -inf
+                c = np.sqrt(x0 + 0.25 * j) + np.log(xl + 1.0)
+            elif kind == "inf_minus_inf":       # overflow AND invalid: inf - inf
+                e = np.exp(400.0 * a)
+                c = np.sum(e) - np.max(e) + np.float64(j)
+            elif kind == "np_costs":            # as exp_array, the costs stay numpy scalars
+                out.append(np.sum(np.exp((300.0 + 100.0 * j) * a)) * np.float64(0.5))
+                continue
+            else:                               # round_huge: the VALUE is finite (1e302..), np.round(value, 7) overflows in calc_signed_costs
+                c = np.float64(1e302) * (1.0 + abs(x0)) if x0 >= 1.0 else x0 + j
+            out.append(float(c))
+        return out
+
+    def reference(v):
+        # the plain reference call: IEEE default (non-stop) arithmetic whatever error state the calling thread was left in
+        with np.errstate(all="ignore"):
+            return F(v)
+    reference.live = F           # what the objective runs inside artap: the error state is whatever artap / the thread has
+    return reference
+
+
 def make_G(k, thr):
     def G(v):
         v = [float(x) for x in v]
@@ -197,6 +242,8 @@ def funcs(lab, cfg):
     """the objective and the constraint function of a case as pure functions of the vector"""
     if cfg.get("bench"):
         return lab.bench_F(cfg["bench"]), None
+    if cfg.get("npkind"):
+        return make_npF(cfg["npkind"], len(cfg["crit"])), (make_G(cfg["ncons"], cfg["thr"]) if cfg["ncons"] > 0 else None)
     return make_F(len(cfg["crit"]), cfg["coef"]), (make_G(cfg["ncons"], cfg["thr"]) if cfg["ncons"] > 0 else None)
 
 
@@ -845,7 +892,7 @@ class Session:
         self.preempt()                                # the vector has been read ...
         if code in TRANSIENT:
             raise TRANSIENT[code]("scripted transient failure of design %r, attempt %d" % (t, att))
-        costs = list(real(individual)) if real is not None else list(self.F(vec))
+        costs = list(real(individual)) if real is not None else list(getattr(self.F, "live", self.F)(vec))
         self.preempt()                                # ... the value is computed, not yet returned
         return costs
 
@@ -1027,7 +1074,7 @@ def oracle(par, ser, cfg, label):
     """The property statement on the implementation's own outputs.  Returns [(what, detail)]."""
     out = []
     F = par.F
-    inp = {"schedule": label, "objective": cfg.get("bench") or "scripted", "workers": par.processes, "batch": cfg["batch"], "vectors": cfg["vectors"], "store": cfg["store"],
+    inp = {"schedule": label, "objective": cfg.get("bench") or (("numpy:" + cfg["npkind"]) if cfg.get("npkind") else "scripted"), "workers": par.processes, "batch": cfg["batch"], "vectors": cfg["vectors"], "store": cfg["store"],
            "criteria": cfg["crit"], "scripted_failures": {"%d:%d" % k: v for k, v in cfg["fails"].items()},
            "state_at_entry": {str(i): p["state"] for i, p in enumerate(cfg["presets"]) if p},
            "gate_trace": [list(e) for e in par.ctl.trace][:60]}
@@ -1429,6 +1476,47 @@ def ambient_backend_streams(ctx, lab, rng, acc):
             one(ctx, lab, cfg, 2 if n < 4 else rng.choice([2, 3]), pol, name + ":ambient", acc, switch=1e-6 if pol is None else None)
             h["gated"] += 1
 
+def numpy_objective_streams(ctx, lab, rng, acc):
+    """red-team round 3: objectives whose numpy arithmetic overflows / is invalid for SOME designs of the batch (numpy scalars and
+    ndarrays; inf, nan, huge values; np.round overflowing inside calc_signed_costs), under gated schedules and free running, with and
+    without scripted transient failures: per design the same costs / signed costs / state / objective calls / problem.failed as the
+    serial evaluation and as the model, whose objective table is computed by a plain call of the same function outside artap."""
+    h = acc["hist"].setdefault("numpy_objectives", {"schedules": 0, "designs": 0, "designs_overflow_or_invalid": 0, "designs_nan": 0,
+                                                    "designs_inf": 0, "designs_huge_finite": 0, "by_kind": {}})
+
+    def cfg_for(kind, n, fail_rate):
+        for _ in range(30):
+            cfg = rand_cfg(rng, n, fail_rate=fail_rate, pre_rate=0.0)
+            cfg["npkind"] = kind
+            F = make_npF(kind, len(cfg["crit"]))
+            vals = [F(v) for v in cfg["vectors"]] + [F(v) for v in cfg["rerolls"].values()]
+            bad = [any(not math.isfinite(c) or abs(c) >= 1e300 for c in cs) for cs in vals[:n]]
+            if any(bad) and not all(bad):
+                break
+        return cfg, vals
+
+    kinds = list(NPKINDS)
+    plan = [(k, pol) for k in kinds for pol in ("gated",)] + [(k, "free") for k in ctx.pick(kinds[:3], kinds)]
+    for rep in range(ctx.pick(1, 6)):
+        for kind, mode in plan:
+            n = rng.choice([3, 4, 5]) if mode == "gated" else rng.choice([6, 8, 12])
+            cfg, vals = cfg_for(kind, n, rng.choice([0.0, 0.0, 0.3]))
+            if mode == "gated":
+                pol = rng.choice([pol_lifo, pol_round_robin, pol_obj_first, pol_sync_first, pol_random(rng.getrandbits(32))])
+                one(ctx, lab, cfg, rng.choice([2, 3]), pol, pol.__name__.replace("pol_", "") + ":numpy", acc)
+            else:
+                one(ctx, lab, cfg, rng.choice([4, 8]), None, "free:numpy", acc, switch=1e-6)
+                acc["hist"]["free_running"] += 1
+            h["schedules"] += 1
+            h["by_kind"][kind] = h["by_kind"].get(kind, 0) + 1
+            for cs in vals[:n]:
+                h["designs"] += 1
+                h["designs_nan"] += any(c != c for c in cs)
+                h["designs_inf"] += any(abs(c) == math.inf for c in cs)
+                h["designs_huge_finite"] += any(math.isfinite(c) and abs(c) >= 1e250 for c in cs)
+                h["designs_overflow_or_invalid"] += any(not math.isfinite(c) or abs(c) >= 1e300 for c in cs)
+
+
 # ----------------------------------------------------------------------------- main
 def one(ctx, lab, cfg, k, policy, label, acc, switch=None):
     if len(ctx.oracle_failures) >= 40 and acc["hist"]["schedules"] >= 12:
@@ -1441,7 +1529,7 @@ def one(ctx, lab, cfg, k, policy, label, acc, switch=None):
     acc["expected"].append(exp)
     trace = [(t, att, kind) for t, att, kind in par.ctl.trace]
     acc["meta"].append({"schedule": label, "workers": k, "batch": cfg["batch"], "vectors": cfg["vectors"], "store": cfg["store"],
-                        "criteria": cfg["crit"], "constraints": cfg["ncons"], "objective": cfg.get("bench") or "scripted",
+                        "criteria": cfg["crit"], "constraints": cfg["ncons"], "objective": cfg.get("bench") or (("numpy:" + cfg["npkind"]) if cfg.get("npkind") else "scripted"),
                         "scripted_failures": {"%d:%d" % kk: v for kk, v in cfg["fails"].items()},
                         "state_at_entry": {str(i): p["state"] for i, p in enumerate(cfg["presets"]) if p}, "gate_trace": trace[:80],
                         "final_parallel": par.after, "final_serial": ser.after, "rows_parallel": par.rows,
@@ -1457,7 +1545,8 @@ def one(ctx, lab, cfg, k, policy, label, acc, switch=None):
     h["by_batch_size"][str(len(cfg["batch"]))] = h["by_batch_size"].get(str(len(cfg["batch"])), 0) + 1
     h["by_workers"][str(k)] = h["by_workers"].get(str(k), 0) + 1
     h["by_store"][cfg["store"]] = h["by_store"].get(cfg["store"], 0) + 1
-    h["by_objective"][cfg.get("bench") or "scripted"] = h["by_objective"].get(cfg.get("bench") or "scripted", 0) + 1
+    okey = cfg.get("bench") or (("numpy:" + cfg["npkind"]) if cfg.get("npkind") else "scripted")
+    h["by_objective"][okey] = h["by_objective"].get(okey, 0) + 1
     h["scheduler_decisions"] += par.ctl.decisions
     h["with_transient_failures"] += 1 if cfg["fails"] else 0
     h["gate_events"] += len(trace)
@@ -1522,6 +1611,8 @@ def run(ctx):
     store_fault_streams(ctx, lab, rng, acc)
     # ---- the caller's own joblib configuration around the evaluation (red-team round 2)
     ambient_backend_streams(ctx, lab, rng, acc)
+    # ---- numpy objectives that overflow / are invalid for some designs (red-team round 3)
+    numpy_objective_streams(ctx, lab, rng, acc)
     # ---- generated controlled schedules
     n_sched = ctx.pick(24, 400)
     for j in range(n_sched):
